@@ -1,8 +1,11 @@
 #!/bin/sh
 # usage: harness/seedtest.sh <seed dir name> <check id> [tier]  — apply a seeded change to /repo, run the check, undo
 cd /verif || exit 2
-P=seeded/$1/patch.diff
-git -C /repo apply --3way $PWD/$P 2>/dev/null || git -C /repo apply $PWD/$P || { echo "patch does not apply"; exit 3; }
+P=$PWD/seeded/$1/patch.diff
+git -C /repo status --short | grep -q . && { echo "/repo is dirty"; exit 3; }
+if ! git -C /repo apply $P 2>/dev/null; then
+  git -C /repo apply --3way $P 2>/dev/null || { git -C /repo reset -q --hard HEAD; echo "patch does not apply"; exit 3; }
+fi
 ./check $2 ${3:-quick}; rc=$?
 git -C /repo reset -q --hard HEAD ; git -C /repo status --short | head -3
 echo "seed $1 -> check $2 exit=$rc"
